@@ -1,5 +1,6 @@
 import SgVerif.C35.Model
 import SgVerif.C35.Modes
+import SgVerif.C35.Alloc
 import SgVerif.Common.Proto
 open SgVerif.Proto
 namespace SgVerif.C35
@@ -124,7 +125,85 @@ def judge (fixed : Bool) (q a : List String) : Verdict :=
     | _, _, _, _ => .bad
   | _ => .bad
 
+/-! ### histories of shared allocations (e2e.cpp): the table of Alloc.lean is threaded through the log -/
+
+structure ASt where
+  table : MMap := []            -- model of `allocs_metadata`
+  live : List LiveA := []       -- specification side: the live allocations
+
+def showLookup : Option (List Block × Nat) → List String
+  | none => ["-1"]
+  | some (bl, o) => toString o :: showBlocks bl
+
+/-- the specification's view of a buffer: the live allocation containing it, as requested by the program -/
+def specKind (l : List LiveA) (ptr : Nat) : Option (LiveA × Nat) := (specLookup l ptr).map (fun a => (a, ptr - a.addr))
+
+/-- byte `x` of a message at `ptr` is private by the REQUEST of the program: outside every requested shared block of the
+    live allocation containing the buffer (or the buffer is ordinary memory) -/
+def privateReq (k : Option (LiveA × Nat)) (x : Nat) : Bool :=
+  match k with
+  | none => true
+  | some (a, o) => !covered a.shared (x + o)
+
+def judgeS (fixed : Bool) (st : ASt) (q a : List String) : ASt × Verdict :=
+  match q with
+  | "AM" :: addr :: size :: rest =>
+    match addr.toNat?, size.toNat?, (rest.drop 1).mapM String.toNat? with
+    | some addr, some size, some sh =>
+      let ev := AEvent.malloc addr size (toBlocks sh)
+      -- the environment assumption of the theorems: a fresh mapping does not overlap a live one
+      if freshB st.live ev then ({ table := astep st.table ev, live := lstep st.live ev }, .ok) else (st, .bad)
+    | _, _, _ => (st, .bad)
+  | ["AF", addr] =>
+    match addr.toNat? with
+    | some addr => ({ table := astep st.table (.free addr), live := lstep st.live (.free addr) }, .ok)
+    | none => (st, .bad)
+  | ["AP", ptr] =>
+    match ptr.toNat? with
+    | some ptr => (st, cmpAns (showLookup (isShared st.table ptr)) a)
+    | none => (st, .bad)
+  | "E3" :: mode :: ns :: nr :: ps :: pr :: rest =>
+    -- E3 <e|b|r> <nSend> <nRecv> <ptrS> <ptrR> | <smpi_is_shared(ptrS)> | <smpi_is_shared(ptrR)> | (x src dst)* => (dst after)*
+    match ns.toNat?, nr.toNat?, ps.toNat?, pr.toNat?, splitBar rest, a.mapM String.toNat? with
+    | some ns, some nr, ps, pr, [_, sp, dp, sm], some after =>
+      match ps, pr, sm.mapM String.toNat? with
+      | some ps, some pr, some nums =>
+        let rec triples : List Nat → List (Nat × Nat × Nat)
+          | x :: sv :: dv :: r => (x, sv, dv) :: triples r
+          | _ => []
+        let tr := triples nums
+        let m : Mode := if mode = "e" then .eager else if mode = "b" then .detached else .rendezvous
+        let look (sel : Nat × Nat × Nat → Nat) : Buf := fun x => match tr.find? (fun t => t.1 == x) with | some t => sel t | none => 0
+        let src := look (fun t => t.2.1)
+        let dst := look (fun t => t.2.2)
+        let n := Nat.min ns nr
+        let pairs := tr.zip after
+        let ks := specKind st.live ps
+        let kr := specKind st.live pr
+        -- monitor = the property: a byte of the transferred part lying in no requested shared block of either allocation
+        -- holds the sender's byte
+        let bad := pairs.filter (fun p => p.1.1 < n && privateReq ks p.1.1 && privateReq kr p.1.1 && p.2 != p.1.2.1)
+        if tr.length != after.length then (st, .bad)
+        else if ¬ bad.isEmpty then
+          (st, .monfail s!"key=e2e-private-byte-not-transferred mode {mode}: bytes {bad.map (·.1.1) |>.take 5} private on both sides differ from the sender's (smpi_is_shared said: send buffer {sp}, receive buffer {dp}; live allocations: send {ks.map (fun k => (k.1.size, k.1.shared, k.2))}, receive {kr.map (fun k => (k.1.size, k.1.shared, k.2))})")
+        else
+          -- model: the table's answer for both buffers, then the mode model on the receiver's private bytes
+          let ms := isShared st.table ps
+          let mr := isShared st.table pr
+          if showLookup ms ≠ sp ∨ showLookup mr ≠ dp then
+            (st, .disagree s!"lookup: model {showLookup ms} | {showLookup mr}")
+          else
+            let sk := kindOfLookup ms
+            let dk := kindOfLookup mr
+            let dis := pairs.filter (fun p => privateIn dk p.1.1 &&
+              transfer m sk dk ns nr false src src dst (fun _ => 0) p.1.1 != p.2)
+            if dis.isEmpty then (st, .ok)
+            else (st, .disagree s!"mode {mode}: bytes {dis.map (·.1.1) |>.take 5}: model {dis.map (fun p => transfer m sk dk ns nr false src src dst (fun _ => 0) p.1.1) |>.take 5} library {dis.map (·.2) |>.take 5}")
+      | _, _, _ => (st, .bad)
+    | _, _, _, _, _, _ => (st, .bad)
+  | _ => (st, judge fixed q a)
+
 end SgVerif.C35
 
 /-- argument `fixed` selects the model of the code with props/C35/proposed_fix.diff applied -/
-def main (args : List String) : IO Unit := SgVerif.Proto.run (SgVerif.C35.judge (args.contains "fixed"))
+def main (args : List String) : IO Unit := SgVerif.Proto.runS ({} : SgVerif.C35.ASt) (SgVerif.C35.judgeS (args.contains "fixed"))
